@@ -61,3 +61,10 @@ timestamp = dict(
     bounded=dict(bound='(20 fixed patterns + every pattern of <= 2 tokens from 18) x {GMT, local} x 5 process time zones x sequences of <= 2 (thorough: 3) instants from a 24-point grid incl. two DST switches', form='b'),
     dropped=[], trusted=['g++ / libstdc++ / libc strftime and the tz database of the image as the reference (the property names strftime)', 'the reference for %s is the epoch seconds of the instant (glibc strftime re-reads a gmtime tm as local time)'], min_obligations=1, timeout=1200)
 UNITS += [timestamp]
+codec_std = dict(
+    name='CD.std_codecs', primary='C04', props={'C04'}, kind='L', funcs=[], enforce=None,
+    desc='the codecs of include/quill/std (vector, deque, list, forward_list, set, map, array, pair, tuple, optional, chrono, filesystem::path; arithmetic, string, C-string, nested elements) and the string arms, called directly: reserved == written == consumed, size cache consumed exactly, and the decoded argument formats to the text of the call-site argument (argument destroyed before decoding)',
+    native=dict(cpp='codec_std.cpp', file='include/quill/std/*.h', function='Codec<...>::{compute_encoded_size,encode,decode_and_store_arg} of the std specialisations', defs_quick=['MAXN=4'], defs_thorough=['MAXN=40']),
+    bounded=dict(bound='containers of every size 0..4 (thorough: 0..40, beyond the inline capacity of the size cache and its first two heap growths) over fixed element families; 7x7 string pairs', form='b'),
+    dropped=[], trusted=['g++ / libstdc++ / fmt execute the real codecs; fmt formats both sides'], min_obligations=1, timeout=1200)
+UNITS += [codec_std]
